@@ -33,6 +33,7 @@ type specEnv struct {
 	depth int
 	nq    *int
 	what  string
+	lenient bool // undefined locals evaluate to arbitrary values (ensures at early returns)
 }
 
 type specErr struct{ msg string }
@@ -190,6 +191,16 @@ func (se *specEnv) ident(n *ast.Ident) specVal {
 	if obj := types.Universe.Lookup(n.Name); obj != nil {
 		if tn, ok := obj.(*types.TypeName); ok {
 			return specVal{T: tn.Type(), V: nil}
+		}
+	}
+	if se.frame != nil && se.lenient {
+		// a local variable of the function that no instruction on this path has defined (an
+		// ensures clause evaluated at an early return): any value; the clause can only be
+		// proved if it does not depend on it there
+		if t := se.x.nameType(se.frame, n.Name); t != nil {
+			v := se.x.freshVal(se.cur, "undef."+n.Name, t)
+			se.frame.names[n.Name] = v
+			return specVal{V: v, T: t}
 		}
 	}
 	se.fail("unknown identifier %s", n.Name)
